@@ -1,6 +1,7 @@
 package h
 
 import (
+	"errors"
 	"fmt"
 	"io"
 	"strings"
@@ -21,7 +22,7 @@ func init() {
 type HandlerFault struct {
 	Tier int    `json:"tier"`
 	Call int    `json:"call"`
-	Mode string `json:"mode"` // panic-before | panic-after | error-before | error-after
+	Mode string `json:"mode"` // panic[-eof|-error|-runtime]-before|-after | error-before | error-after
 }
 
 type faultyHandler struct {
@@ -38,15 +39,28 @@ func (h faultyHandler) trip() (before, after func() error) {
 		return func() error { return nil }, func() error { return nil }
 	}
 	*h.hit = true
-	switch h.f.Mode {
-	case "panic-before":
-		return func() error { panic("injected panic below the locking wrapper") }, func() error { return nil }
-	case "panic-after":
-		return func() error { return nil }, func() error { panic("injected panic below the locking wrapper") }
-	case "error-before":
-		return func() error { return io.ErrUnexpectedEOF }, func() error { return nil }
+	boom := func() error {
+		switch {
+		case strings.HasPrefix(h.f.Mode, "panic-eof"):
+			panic(io.EOF) // what a layer doing panic(err) on a lost backend connection raises
+		case strings.HasPrefix(h.f.Mode, "panic-error"):
+			panic(errors.New("injected error-valued panic below the locking wrapper"))
+		case strings.HasPrefix(h.f.Mode, "panic-runtime"):
+			var m map[string]int
+			m["x"] = 1 // a genuine runtime error
+		}
+		panic("injected panic below the locking wrapper")
+	}
+	nop := func() error { return nil }
+	switch {
+	case strings.HasPrefix(h.f.Mode, "panic") && strings.HasSuffix(h.f.Mode, "before"):
+		return boom, nop
+	case strings.HasPrefix(h.f.Mode, "panic"):
+		return nop, boom
+	case h.f.Mode == "error-before":
+		return func() error { return io.ErrUnexpectedEOF }, nop
 	default:
-		return func() error { return nil }, func() error { return io.ErrUnexpectedEOF }
+		return nop, func() error { return io.ErrUnexpectedEOF }
 	}
 }
 
@@ -173,7 +187,8 @@ func RunLockFault(cfg Cfg, init []wire.Op, cmd, follow wire.Op, f *HandlerFault,
 
 func runC12(c *rt.Ctx) {
 	item := 0
-	modes := []string{"panic-before", "panic-after", "error-before", "error-after"}
+	// the panic value varies too: a string, the io.EOF sentinel, an error value, a runtime error
+	modes := []string{"panic-before", "panic-after", "error-before", "error-after", "panic-eof-before", "panic-eof-after", "panic-error-after", "panic-runtime-before"}
 	for _, lock := range []string{"single", "multi"} {
 		for _, proto := range []string{"binary", "text"} {
 			for _, orca := range []string{"l1l2b", "l1only"} {
